@@ -157,7 +157,7 @@ func verifC06UDP(lo, hi, nstale int) {
 
 // VerifC06TCP: same for a length-prefixed TCP/DoT message.
 //
-//verif:harness name=H06d-tcp tier=quick bounds="framed message of 12..15 bytes (as H06c-udp), delivered in 1 or 2 chunks; pooled buffer of 64 bytes holding arbitrary stale bytes in its first 24 positions" reach=decoded,rejected maxpaths=100000 fanout=70
+//verif:harness name=H06d-tcp tier=quick bounds="framed message of 12..15 bytes (as H06c-udp), delivered in 1 or 2 chunks; pooled buffer of 64 or 14 bytes (smaller than some messages) holding arbitrary stale bytes, left at length 8/14/48 by the previous message" reach=decoded,rejected maxpaths=100000 fanout=70
 //verif:assume sync.Pool hands the most recently released buffer back (LIFO); the worker pool runs the task inline
 func VerifC06TCP() { verifC06TCP(12, 15, 24) }
 
@@ -182,19 +182,25 @@ func verifC06TCP(lo, hi, nstale int) {
 		wg.Wait()
 	}
 
+	// the pool's buffers may be smaller than the message (they are grown on demand)
+	bufSize := []int{64, 14}[verifChoice(2)]
 	hw := &verifRecorder{}
-	warm := verifNewDNS(hw, 64)
+	warm := verifNewDNS(hw, bufSize)
 	bp := warm.tcpPool.Get()
-	for i := 0; i < nstale; i++ {
+	for i := 0; i < nstale && i < bufSize; i++ {
 		(*bp)[i] = verifBodyByte()
 	}
 	// an earlier, longer or shorter message leaves the slice with another length
-	*bp = (*bp)[:verifChoice(3)*20+8]
+	prevLen := []int{8, 14, 48}[verifChoice(3)]
+	if prevLen > bufSize {
+		prevLen = bufSize
+	}
+	*bp = (*bp)[:prevLen]
 	warm.tcpPool.Put(bp)
 	run(warm)
 
 	hf := &verifRecorder{}
-	fresh := verifNewDNS(hf, 64)
+	fresh := verifNewDNS(hf, bufSize)
 	run(fresh)
 
 	mw, ew := hw.result()
